@@ -101,8 +101,9 @@ func c02Eval(s []byte) (diag, sig string, valid bool) {
 			return fmt.Sprintf("a re-used message decoding from a re-used buffer fails (%v %s) on the well-formed frame %s", rerr2, p, hx(s)), "reused:rejects-valid", true
 		}
 		g := c02Reused.Header
-		if g.ID != rf.ID || g.TerminalPhoneNo != ref.PhoneString(rf.PhoneBCD) || g.SerialNumber != rf.Serial || !bytes.Equal(c02Reused.Body, rf.Body) {
-			got := fmt.Sprintf("ID=%#x phone=%s serial=%d body=%s", g.ID, g.TerminalPhoneNo, g.SerialNumber, hx(c02Reused.Body))
+		if g.ID != rf.ID || g.TerminalPhoneNo != ref.PhoneString(rf.PhoneBCD) || g.SerialNumber != rf.Serial || !bytes.Equal(c02Reused.Body, rf.Body) || g.ProtocolVersion != h.ProtocolVersion ||
+			g.SubPackageSum != rf.Total || g.SubPackageNo != rf.Number || g.Property.PacketFragmented != h.Property.PacketFragmented || g.Property.Version != h.Property.Version {
+			got := fmt.Sprintf("ID=%#x phone=%s serial=%d version=%v package=%d/%d body=%s", g.ID, g.TerminalPhoneNo, g.SerialNumber, g.ProtocolVersion, g.SubPackageNo, g.SubPackageSum, hx(c02Reused.Body))
 			c02Reused = nil
 			return fmt.Sprintf("a re-used message decoding from a re-used buffer yields %s for frame %s (fresh: phone=%s serial=%d)", got, hx(s), ref.PhoneString(rf.PhoneBCD), rf.Serial), "reused:field", true
 		}
